@@ -10,7 +10,7 @@ Not decided: the real-time bound (platform poll + send latency), the clock itsel
 import re
 
 from .common import *
-from ..tables import Atom, check_decision_table
+from ..tables import cdec,  Atom, check_decision_table
 
 LEVEL = 'other'
 
@@ -58,17 +58,18 @@ def run(chk, tier):
     chk.fn_seen(fe['path'])
     st = St()
     outs = eng.run(fe, [('sym', 'start'), ('sym', 'end'), ('sym', 'dur')], st)
-    want_some = r'Gt\(unwrap_or_default\(call:SystemTime::duration_since\(end, start#Some\.0\)\), dur\)' \
-                r'|Lt\(dur, unwrap_or_default\(call:SystemTime::duration_since\(end, start#Some\.0\)\)\)'
+    want_some = r'Gt\(unwrap_or_default\(call:SystemTime::duration_since\(end, field:0\(start\)\)\), dur\)' \
+                r'|Lt\(dur, unwrap_or_default\(call:SystemTime::duration_since\(end, field:0\(start\)\)\)\)'
     seen = set()
     for o in outs:
-        dec = {vshow(a): v for a, v, _ in o.st.decisions}
+        dec = cdec(o)
+        dec = {k: (0 if isinstance(v, tuple) else v) for k, v in dec.items()}
         val = vshow(o.value)
-        if o.kind != 'return' or set(dec) != {'is_some(start)'}:
+        if o.kind != 'return' or set(dec) != {'discr(start)'}:
             chk.fail('R1e', 'exceeds:shape', fn_loc(fe), 'exceeds() decides on something other than start.is_some(): %s' % dec,
                      key='R1e|shape')
             continue
-        some = dec['is_some(start)']
+        some = dec['discr(start)']
         seen.add(some)
         good = (val == '0') if not some else bool(re.fullmatch(want_some, val))
         if good:
